@@ -172,14 +172,22 @@ func (e *env) runQuery(ctx context.Context, q qspec) outcome {
 	return out
 }
 
-func item(content int, idx []int) *explore.Item {
+func item(content int, idx []int) *explore.Item { return itemSlow(content, idx, false) }
+
+// slow: a SELECT stays in flight for one scheduling step (a query arriving while another batch's statement runs)
+func itemSlow(content int, idx []int, slow bool) *explore.Item {
 	fs := filters()
 	var names []string
 	for _, i := range idx {
 		names = append(names, fs[i].name)
 	}
 	name := fmt.Sprintf("content=%d queries=%s", content, strings.Join(names, " | "))
-	return &explore.Item{Name: name, Bound: -1, MaxSteps: 4000, Body: func(x *explore.Exec) {
+	bound := -1
+	if slow {
+		name = "slow " + name
+		bound = 2 // an early wait-interval timer and one preemption inside the statement
+	}
+	return &explore.Item{Name: name, Bound: bound, MaxSteps: 4000, Body: func(x *explore.Exec) {
 		// run A: each query alone, no batching context
 		ref := newEnv(content)
 		x.Cleanup(ref.fdb.Close)
@@ -190,6 +198,7 @@ func item(content int, idx []int) *explore.Item {
 		// run B: all queries concurrently under one batching context
 		e := newEnv(content)
 		x.Cleanup(e.fdb.Close)
+		e.fdb.SlowSelect = slow
 		ctx := batch.WithBatching(context.Background())
 		got := make([]outcome, len(idx))
 		done := make([]bool, len(idx))
@@ -229,6 +238,8 @@ func stmts(d *fakesql.DB) string {
 
 func parseItem(name string) *explore.Item {
 	var content int
+	slow := strings.HasPrefix(name, "slow ")
+	name = strings.TrimPrefix(name, "slow ")
 	fmt.Sscanf(name, "content=%d", &content)
 	qs := strings.Split(name[strings.Index(name, "queries=")+8:], " | ")
 	fs := filters()
@@ -240,7 +251,7 @@ func parseItem(name string) *explore.Item {
 			}
 		}
 	}
-	return item(content, idx)
+	return itemSlow(content, idx, slow)
 }
 
 func run(rp *explore.Report, tier string) {
@@ -252,6 +263,17 @@ func run(rp *explore.Report, tier string) {
 				k++
 				if rp.Mine(k) {
 					rp.Explore(item(content, []int{a, b}))
+				}
+			}
+		}
+		// the same pairs with statements that stay in flight (first table content; a grid of pairs)
+		if content == 0 {
+			for a := 0; a < len(fs); a += 3 {
+				for b := a; b < len(fs); b += 4 {
+					k++
+					if rp.Mine(k) {
+						rp.Explore(itemSlow(content, []int{a, b}, true))
+					}
 				}
 			}
 		}
@@ -275,5 +297,5 @@ func run(rp *explore.Report, tier string) {
 
 func init() {
 	reg.Register(&reg.Harness{Property: "C10", Name: "c10/sqlbatch", Level: "model_checking", Bounds: [2]int{1, 2}, Run: run, Item: parseItem,
-		Rule: fmt.Sprintf("3 table contents (duplicates + NULLs, single row, empty) x all pairs and a grid of triples of %d queries", len(filters())) + " (Query/QueryRow; filters on id, nullable column, string column, int32 column, implicitnull column (zero value = NULL), []byte column (nil), two columns, empty, nil; each value in the Go representations int / int64 / int32 / *int64 / named string / nil / typed nil pointer; a second table) run concurrently under one batch.WithBatching context over the real sqlgen.DB and an in-memory SQL driver with three-valued NULL logic, all schedules within the deviation bound; oracle: per query, rows (as a key multiset) and error kind equal the same query run alone without batching. non-trivial = executions in which the driver saw fewer statements than queries"})
+		Rule: fmt.Sprintf("3 table contents (duplicates + NULLs, single row, empty) x all pairs and a grid of triples of %d queries", len(filters())) + " (Query/QueryRow; filters on id, nullable column, string column, int32 column, implicitnull column (zero value = NULL), []byte column (nil), two columns, empty, nil; each value in the Go representations int / int64 / int32 / *int64 / named string / nil / typed nil pointer; a second table) run concurrently under one batch.WithBatching context (plus a grid of pairs whose SELECT stays in flight for a step, explored at bound 2 incl. an early wait-interval timer) over the real sqlgen.DB and an in-memory SQL driver with three-valued NULL logic, all schedules within the deviation bound; oracle: per query, rows (as a key multiset) and error kind equal the same query run alone without batching. non-trivial = executions in which the driver saw fewer statements than queries"})
 }
